@@ -1426,7 +1426,10 @@ def single_pass(ctx, rr):
                         second.append(x)
                     st = min(st + 1, 2)
                 if nd.kind == 'stmt' and prm in names_assigned(nd):
-                    st = 0          # re-bound (materialised): a new value
+                    v_ = getattr(nd.ast, 'value', None)
+                    solid = isinstance(v_, (ast.List, ast.Tuple, ast.ListComp, ast.SetComp, ast.DictComp, ast.Dict, ast.Set)) or \
+                        (isinstance(v_, ast.Call) and isinstance(v_.func, ast.Name) and v_.func.id in ('list', 'tuple', 'sorted', 'set', 'dict', 'frozenset'))
+                    st = -1000 if solid else 0          # materialised: may be walked again; otherwise a new one-shot value
                 return st
             IN = solve_forward(cfg, 0, lambda nd, st: tr(nd, st), lambda lab, st: st, max)
             for nd in cfg.nodes:
